@@ -7,7 +7,7 @@ HERE="$(cd "$(dirname "$0")/.." && pwd)"
 PAT="${1:-}"
 fail=0; n=0
 # private copy of the verifier so that the corpus can run while the engine is being rebuilt
-"$HERE/check" C00 quick >/dev/null 2>&1
+VERIF_EVIDENCE_DIR=$(mktemp -d /tmp/vcgo-ev-XXXXXX) "$HERE/check" C00 quick >/dev/null 2>&1   # builds the binary if needed
 BINDIR=$(mktemp -d /tmp/vcgo-selftest-bin-XXXXXX); cp "$HERE/bin/vcgo" "$BINDIR/vcgo"
 for d in "$HERE"/selftest/mutations/*${PAT}*.diff; do
   [ -f "$d" ] || continue
